@@ -147,6 +147,8 @@ def exec_set_raw(sess: Session, op: dict, step: int) -> Effect:
     eff.touched = {sess.root_key(op['t'])} | donor_roots(recipes)
     donor = make_donor(sess, op['v'])
     _no_self_insertion(donor, node)
+    if isinstance(node, (models.CostSpec, models.UnitCost, models.TotalCost)):
+        getattr(sess, 'cost_clean', {}).clear()      # raw edits: the cost may leave the listed forms
     cur = getattr(node, m.name)
     if donor is None and cur is None:
         eff.outcome = 'skipped'
@@ -244,9 +246,15 @@ def exec_set_val(sess: Session, op: dict, step: int) -> Effect:
     group = _group_of(node, m.name)
     expect_reject = False
     rec = None
-    if group == 'cost' and m.name in ('number_per', 'number_total', 'currency') and not _cost_normal_form(node):
-        sess.stats['cost_not_in_a_listed_form'] += 1   # e.g. raw edits added a second amount-like component
-        group = 'cost_irregular'
+    if group == 'cost':
+        clean = getattr(sess, 'cost_clean', None)
+        if clean is None:
+            clean = sess.cost_clean = {}
+        if _cost_normal_form(node):
+            clean[id(node)] = node      # from here on only value-level setters shape this cost
+        elif id(node) not in clean:
+            sess.stats['cost_not_in_a_listed_form'] += 1   # e.g. raw edits added a second amount-like component
+            group = 'cost_irregular'
     if group == 'cost' and m.name in ('number_per', 'number_total', 'currency'):
         rec = {k: vals_before[k] for k in ('number_per', 'number_total', 'currency')}
         rec[m.name] = v
@@ -267,6 +275,9 @@ def exec_set_val(sess: Session, op: dict, step: int) -> Effect:
             return eff
         if op.get('fault') and op['fault'] != 'F6_cost_rejection':
             eff.fault = op['fault']
+            return eff
+        if group == 'cost_irregular' and isinstance(e, ValueError):
+            eff.fault = 'F6_cost_rejection'     # outside the listed forms the record model cannot predict rejections
             return eff
         eff.v('C09', 'unexpected_exception', step,
               f'{type(node).__name__}.{m.name} = {v!r} raised {type(e).__name__}: {e}')
@@ -320,10 +331,16 @@ def exec_set_val(sess: Session, op: dict, step: int) -> Effect:
             eff.v('C09', 'sibling_value', step, f'{type(node).__name__}.{name} changed from {old!r} to {new!r} when {m.name} was assigned {v!r}')
             break
     # C18: comments created from a value take the owner's indent
+    if m.kind == 'value_opt_indented_string' and cur is not None and v is not None:
+        c = getattr(node, m.inner)
+        if c is not None and any(not line.startswith(c.indent + ';') for line in c.raw_text.split('\n')):
+            eff.v('C18', 'comment_line_indent', step, f'{type(node).__name__}.{m.name} = {v!r}: a line of the updated comment {c.raw_text!r} lost its indent {c.indent!r}')
     if m.kind == 'value_opt_indented_string' and cur is None and v is not None:
         c = getattr(node, m.inner)
         if c is not None and c.indent != pre_indent:
             eff.v('C18', 'comment_indent', step, f'{type(node).__name__}.{m.name} created with indent {c.indent!r}, owner indent is {pre_indent!r}')
+        elif c is not None and any(not line.startswith(pre_indent + ';') for line in c.raw_text.split('\n')):
+            eff.v('C18', 'comment_line_indent', step, f'{type(node).__name__}.{m.name} = {v!r}: a line of the created comment {c.raw_text!r} does not start with the owner indent {pre_indent!r}')
     elif m.kind == 'value_opt_string' and m.types and m.types[0] is BlockComment and cur is None and v is not None:
         c = getattr(node, m.inner)
         if c is not None and c.indent != '':
@@ -388,10 +405,15 @@ def _pyref(kind: str, cur: list, op: dict, vals: list, is_view: bool) -> tuple[O
             del exp[op['i']]
         elif kind == 'delslice':
             del exp[slice(*op['sl'])]
-        elif kind == 'extend':
+        elif kind in ('extend', 'iadd'):
             exp.extend(vals)
         elif kind == 'clear':
             exp.clear()
+        elif kind == 'reverse':
+            if len(exp) >= 2 and any(isinstance(x, models.RawModel) for x in exp):
+                # MutableSequence.reverse assigns elements that still live in the list: a refusal
+                return None, ValueError, None
+            exp.reverse()
     except (IndexError, ValueError) as e:
         return None, type(e), None
     return exp, None, res
@@ -414,6 +436,8 @@ def exec_seq(sess: Session, op: dict, step: int) -> Effect:
     eff.touched = {owner_key} | donor_roots(recipes)
     raw_member = _raw_member_of(owner, mname)
     slot = _slot_of_raw(owner, raw_member)
+    if isinstance(owner, (models.CostSpec, models.UnitCost, models.TotalCost)) and kind not in ('getitem', 'index_count'):
+        getattr(sess, 'cost_clean', {}).clear()
     raw_before = list(getattr(owner, raw_member))
     cur = list(w)
     fresh_expected = view_expected(owner, mname) if is_view else raw_before
@@ -442,7 +466,7 @@ def exec_seq(sess: Session, op: dict, step: int) -> Effect:
             exp, exp_exc = (None, ValueError) if not matches else (cur[:matches[0]] + cur[matches[0] + 1:], None)
         else:
             exp, exp_exc = [x for j, x in enumerate(cur) if j not in matches], None
-    elif kind == 'getitem':
+    elif kind in ('getitem', 'index_count'):
         exp, exp_exc = list(cur), None
     else:
         exp, exp_exc, res = _pyref(kind, cur, op, vals, is_view)
@@ -467,6 +491,23 @@ def exec_seq(sess: Session, op: dict, step: int) -> Effect:
             del w[slice(*op['sl'])]
         elif kind == 'extend':
             w.extend(vals)
+        elif kind == 'iadd':
+            w2 = w
+            w2 += vals
+            if w2 is not w:
+                eff.v('C10', 'iadd_identity', step, '+= returned another object')
+        elif kind == 'reverse':
+            w.reverse()
+        elif kind == 'index_count':
+            eff.noop_expected = True
+            i = op['i']
+            if -len(cur) <= i < len(cur):
+                x = cur[i]
+                exp_idx = next(j for j, y in enumerate(cur) if y == x)
+                exp_cnt = sum(1 for y in cur if y == x)
+                if w.index(x) != exp_idx or w.count(x) != exp_cnt or (x in w) is not True:
+                    eff.v('C10', 'index_count', step, f'{type(owner).__name__}.{mname}: index/count/in of element {i} disagree with a list')
+            return eff
         elif kind == 'clear':
             w.clear()
         elif kind == 'remove':
@@ -539,6 +580,12 @@ def exec_seq(sess: Session, op: dict, step: int) -> Effect:
     sp_a = span_in(_index(after), owner)
     new_item_ids = {id(x) for x in raw_after}
     removed_items = [x for x in raw_before if id(x) not in new_item_ids]
+    if kind not in ('pop',):
+        zs = getattr(sess, 'zombies', None)
+        if zs is None:
+            zs = sess.zombies = []
+        zs.extend(x for x in removed_items if isinstance(x, models.RawTreeModel))
+        del zs[:-4]
     added_items = [x for x in raw_after if id(x) not in old_item_ids]
     # tokens of removed items: they are now detached; use the before-snapshot spans captured via identity
     removed_tok_ids: set = set()
@@ -548,7 +595,7 @@ def exec_seq(sess: Session, op: dict, step: int) -> Effect:
     for x in added_items:
         new_ids |= ids_of(x)
     inplace_ids: set = set()
-    if is_view and kind in ('setitem', 'setslice'):
+    if is_view and kind in ('setitem', 'setslice', 'reverse'):
         for x in raw_after:
             if id(x) in old_item_ids and isinstance(x, models.RawTokenModel):
                 inplace_ids.add(id(x))
@@ -884,13 +931,13 @@ def exec_claim(sess: Session, op: dict, step: int) -> Effect:
             owner, _ = _owner_of(sess, op['t'])
             root = _root_node(sess, owner)
             subset = None
-            if 'foreign' in op:
-                subset = [make_donor(sess, op['foreign'])]
-            elif 'subset' in op:
+            if 'subset' in op:
                 toks = list(owner.token_store)
                 subset = [toks[i] for i in op['subset'] if i < len(toks) and isinstance(toks[i], BlockComment)]
                 if not subset:
                     raise Unresolvable('subset gone')
+            if 'foreign' in op:
+                subset = (subset or []) + [make_donor(sess, op['foreign'])]
             before_map = W.ownership_map(root) if root is not None else None
             if how == 'claim_inter':
                 obj.claim_interleaving_comments(subset)
@@ -1107,6 +1154,13 @@ def exec_deepcopy(sess: Session, op: dict, step: int) -> Effect:
         eff.v('C11', 'copy_shares_tokens', step, 'deep copy shares tokens or the store with the original')
     if W.struct_fp(cp) != W.struct_fp(node):
         eff.v('C11', 'copy_structure', step, 'deep copy has a different tree structure')
+    try:
+        fa = [(t.raw_text, t.claimed) for t in node.tokens if isinstance(t, BlockComment)]
+        fb = [(t.raw_text, t.claimed) for t in cp.tokens if isinstance(t, BlockComment)]
+        if fa != fb:
+            eff.v('C11', 'copy_comment_flags', step, f'deep copy is not exact: comment ownership flags {fb} in the copy, {fa} in the original')
+    except Exception:
+        pass
     sess.pool.append(cp)
     sess.stats['pool:copies'] += 1
     return eff
@@ -1132,9 +1186,114 @@ def exec_handle(sess: Session, op: dict, step: int) -> Effect:
     return eff
 
 
+def exec_arith(sess: Session, op: dict, step: int) -> Effect:
+    import decimal as _d
+    node = sess.resolve(op['t'])
+    if not isinstance(node, models.NumberExpr):
+        raise Unresolvable('not a NumberExpr')
+    mode, o = op['mode'], op['o']
+    eff = Effect(f'arith_{mode}', 'A', 'NumberExpr')
+    eff.touched = {sess.root_key(op['t'])}
+    r = op['r']
+    if 'int' in r:
+        other: Any = r['int']
+        rv = _d.Decimal(r['int'])
+    elif 'dec' in r:
+        other = _d.Decimal(r['dec'])
+        rv = other
+    else:
+        try:
+            other = docbase_parser().parse(r['expr'], models.NumberExpr)
+            rv = other.value
+        except ARITH_ERRORS:
+            raise Unresolvable('operand does not evaluate')
+        except Exception as e:
+            raise Unresolvable(f'operand rejected: {e}')
+    try:
+        lv = node.value
+    except ARITH_ERRORS:
+        raise Unresolvable('target does not evaluate')
+    try:
+        if mode == 'neg':
+            expected = -lv
+        else:
+            a, b = (rv, lv) if mode == 'reflected' else (lv, rv)
+            if o == '/' and b == 0:
+                raise Unresolvable('zero divisor')
+            expected = {'+': a + b, '-': a - b, '*': a * b, '/': (a / b) if o == '/' else None}[o]
+    except ARITH_ERRORS:
+        raise Unresolvable('arithmetic undefined')
+    if mode != 'inplace':
+        eff.noop_expected = True
+    before = _before(node)
+    sp_b = _span_before(before, node)
+    old_ids = ids_of(node)
+    try:
+        if mode == 'neg':
+            res = -node
+        elif mode == 'plain':
+            res = {'+': lambda: node + other, '-': lambda: node - other, '*': lambda: node * other, '/': lambda: node / other}[o]()
+        elif mode == 'reflected':
+            res = {'+': lambda: other + node, '-': lambda: other - node, '*': lambda: other * node, '/': lambda: other / node}[o]()
+        else:
+            x = node
+            if o == '+':
+                x += other
+            elif o == '-':
+                x -= other
+            elif o == '*':
+                x *= other
+            else:
+                x /= other
+            res = x
+    except Exception as e:
+        eff.exc = e
+        eff.outcome = 'raised'
+        eff.v('C13', 'operator_raises', step, f'{mode} {o} on {print_model(node)!r} raised {type(e).__name__}: {e}')
+        return eff
+    try:
+        got = res.value
+    except ARITH_ERRORS:
+        return eff
+    if got != expected:
+        eff.v('C13', 'result_value', step, f'{mode} {print_model(node)!r} {o} {r}: value {got}, arithmetic gives {expected}')
+    if mode == 'inplace':
+        if res is not node:
+            eff.v('C13', 'inplace_identity', step, 'in-place operator returned another object')
+        after = store_tokens(node)
+        sp_a = span_in(_index(after), node)
+        check_child_edit(eff, step, 'C03', before, after, sp_b, sp_a, old_ids, ids_of(node), [], f'in-place {o} on an attached expression')
+    else:
+        sess.pool.append(res)
+    return eff
+
+
+def docbase_parser():
+    from .docbase import parser
+    return parser()
+
+
+def exec_eq_zombie(sess: Session, op: dict, step: int) -> Effect:
+    zs = getattr(sess, 'zombies', [])
+    if op['z'] >= len(zs):
+        raise Unresolvable('no such deleted node')
+    z = zs[op['z']]
+    live = sess.resolve(op['t'])
+    eff = Effect('eq_zombie', 'R', type(live).__name__)
+    eff.noop_expected = True
+    eff.touched = set()
+    for a, b in ((z, live), (live, z), (z, z)):
+        try:
+            a == b      # may raise on a node whose tokens left the store; that is the library's documented behaviour
+        except Exception:
+            sess.stats['eq_on_deleted_node_raised'] += 1
+    return eff
+
+
 EXEC = {
     'tok_value': exec_token, 'tok_raw': exec_token, 'comment_indent': exec_token,
     'set_raw': exec_set_raw, 'set_val': exec_set_val, 'seq': exec_seq, 'map': exec_map,
     'read': exec_read, 'claim': exec_claim, 'spacing': exec_spacing,
     'deepcopy': exec_deepcopy, 'construct': exec_construct, 'handle': exec_handle,
+    'arith': exec_arith, 'eq_zombie': exec_eq_zombie,
 }
